@@ -478,6 +478,13 @@ class Sim:
             t.last_kind = kind
             t.last_obj = obj
             t.kind_counts[kind] = t.kind_counts.get(kind, 0) + 1
+            if self.ints_by_role and (t.role == 'server' or t.role.startswith('aux:')):
+                for il in self.ints_by_role.values():
+                    for it in il:
+                        if it.anchor == kind:
+                            tgt = next((x for x in self.threads if x.role == it.role), None)
+                            if tgt is not None and (tgt.tid, kind) not in self._anchor_snaps:
+                                self._anchor_snaps[(tgt.tid, kind)] = dict(tgt.kind_counts)
         self.rec(kind, obj, detail, t=t)
 
     def _post_resume(self, t):
@@ -514,12 +521,10 @@ class Sim:
                 if s.fired:
                     continue
                 if s.kind is not None and s.anchor is not None:
+                    # counted from the moment the table manager's process (its main thread or a
+                    # thread it started that is not a connection thread) performed its first
+                    # operation of kind `anchor`
                     snap = self._anchor_snaps.get((t.tid, s.anchor))
-                    if snap is None and t.kind_counts.get(s.anchor, 0) > 0:
-                        # first look after the anchor operation was performed: remember how many
-                        # operations of each kind lay before it (the anchor itself included)
-                        snap = dict(t.kind_counts)
-                        self._anchor_snaps[(t.tid, s.anchor)] = snap
                     hit = (snap is not None and kind == s.kind and
                            t.kind_counts.get(kind, 0) - snap.get(kind, 0) == s.n)
                 elif s.kind is not None:
